@@ -32,8 +32,8 @@ def cfg(tier):
 def params(tier):
     D, L = cfg(tier)
     ps = [P("n", 0, 2), P("nested", 0, 1), P("act", 0, 8), P("via", 0, 2), P("k0", 0, 2), P("k1", 0, 2), P("k2", 0, 2), P("act2", 0, 1)]
-    # quick: ONE of {plain, first task ended by itself, block ends with an exception, task needs shielded clean-up}; thorough: the full product
-    ps += [P("mode", 0, 3)] if tier == "quick" else [P("selfend", 0, 1), P("cleanup", 0, 1), P("blockerr", 0, 1)]
+    # ONE of {plain, first task ended by itself, block ends with an exception, task needs shielded clean-up}
+    ps += [P("mode", 0, 3)]
     for j in range(D):
         ps += [P(f"gap{j}", 0, L), P(f"arm{j}", 0, 3)]
     return ps
@@ -51,11 +51,8 @@ def fn(a, tier):
     kinds = [pick(a[f"k{i}"], 3) for i in range(n)]
     first_task = next((i for i, k in enumerate(kinds) if k == 1), None)
     act = pick(a["act"], 9) if first_task is not None else 0
-    if tier == "quick":
-        mode = pick(a["mode"], 4)
-        m_selfend, m_blockerr, m_cleanup = int(mode == 1), int(mode == 2), int(mode == 3)
-    else:
-        m_selfend, m_cleanup, m_blockerr = pick(a["selfend"], 2), pick(a["cleanup"], 2), pick(a["blockerr"], 2)
+    mode = pick(a["mode"], 4)
+    m_selfend, m_blockerr, m_cleanup = int(mode == 1), int(mode == 2), int(mode == 3)
     # the first task has already ended by itself (with its context) when the owner is torn down: its teardown action is still due exactly once
     selfend = m_selfend if first_task is not None else 0
     cleanup = 2 * m_cleanup if first_task is not None else 0
